@@ -1000,13 +1000,13 @@ func checkC20(P *Prog, r *Result) {
 			r.undecided("C20/predicate", c, P.pos(cl.Pos()), "predicate closure has an unrecognised shape: "+strings.Join(probs, "; "), "formula so far: "+got)
 			continue
 		}
-		if got == exp.form {
+		if formulaEquiv(got, exp.form) {
 			r.ok("C20/predicate", c, P.pos(cl.Pos()), fmt.Sprintf("%s: %s", exp.doc, got))
 		} else {
 			r.bad("C20/predicate", c, P.pos(cl.Pos()), fmt.Sprintf("the built-in test reporting %q does not compute its documented predicate (%s)", l.code, exp.doc), "expected: "+exp.form, "found:    "+got)
 		}
 	}
-	r.floor("C20/predicate", 26)
+	r.floor("C20/predicate", 22)
 	// regex globals: compiled once from a constant, never reassigned
 	for _, fn := range P.Funcs {
 		// every function of the root package that reads a regular-expression global (the predicate closures,
@@ -1050,7 +1050,7 @@ func checkC20(P *Prog, r *Result) {
 			}
 		})
 	}
-	r.floor("C20/regexp-global", 2)
+	r.floor("C20/regexp-global", 1)
 	// the verdict is reported: an issue raised by a failing built-in test is not swallowed by a catch flag left
 	// on the node's context by a sibling or an earlier element (C02's not-swallowed rule)
 	shareRule(P, r, checkC02, "C02/not-swallowed", nil, "C20/verdict-reported", 15)
@@ -1120,7 +1120,13 @@ func (P *Prog) canonicalPredicateEnvT(cl *ssa.Function, env map[ssa.Value]ssa.Va
 		return "", sh.problems
 	}
 	if sh.loop != nil && strings.HasPrefix(sh.domain, "runes of ") {
+		// (under the factory's bindings: the rune test may be a closure handed to `containsRuneFunc(match)`)
+		saved := substEnv
+		if len(env) > 0 {
+			substEnv = env
+		}
 		set, ok := P.runeIntervals(cl, sh.loop)
+		substEnv = saved
 		if !ok {
 			return "", []string{"rune loop is not a pure comparison of the rune against constants"}
 		}
